@@ -24,6 +24,7 @@ def run(ctx):
     forwarders(ctx, P)
     tables(ctx, P)
     embedding(ctx, P)
+    v3_key_id_right_aligned(ctx, P)
 
 
 def forwarders(ctx, P):
@@ -110,6 +111,53 @@ def tables(ctx, P):
             pass
         fp = b.calls(r'KeyDetails::fingerprint$')
         ctx.check(P + ':S13-2:keyid-from-fingerprint', 'R-who', 'v4/v6 key ids are cut out of fingerprint()', len(fp) >= 2, function=b.path, count=len(fp))
+
+
+def v3_key_id_right_aligned(ctx, P):
+    """RFC 9580 5.5.4.1: the key ID of a v3 key is the low 64 bits of the modulus.  For a modulus shorter than 8 octets the id is the
+    modulus left-padded with zero octets: every copy into the 8-octet id in the v2/v3 arm writes a SUFFIX of it (`raw[offset..]` or
+    the whole array), never a prefix."""
+    b = ctx.body('<packet::key::public::PubKeyInner as types::key_traits::KeyDetails>::legacy_key_id')
+    if b is None:
+        return
+    from rules.common import single_defs, arm_context
+    defs = single_defs(b)
+    dom = b.dominators()
+    n = 0
+    bad = []
+    for i, t in b.calls(r'copy_from_slice$'):
+        arms = [vs for a, vs in arm_context(b, i, dom) if a == 'KeyVersion']
+        if not arms or not set(min(arms, key=len)) <= {'V2', 'V3'}:
+            continue
+        n += 1
+        # destination: `&mut raw` (whole) or Index(raw, RangeFrom / RangeFull)
+        o = t['args'][0]
+        kind = 'whole'
+        for _ in range(6):
+            d = defs.get(o.get('l')) if 'l' in o else None
+            if d is None:
+                break
+            x = d[1]
+            if x.get('k') == 'call':
+                fn = x['f'].get('fn', '') or ''
+                if re.search(r'ops::IndexMut::index_mut$|ops::Index::index$', fn):
+                    full = x['f'].get('full', '') or ''
+                    m = re.search(r'Index(?:Mut)?<std::ops::(\w+)', full)
+                    kind = m.group(1) if m else 'index'
+                break
+            r = x['r']
+            if r['k'] in ('ref', 'copyderef'):
+                o = dict(l=r['p']['l'], pr=[])
+                continue
+            if r['k'] in ('use', 'cast') and 'l' in r['o'][0]:
+                o = r['o'][0]
+                continue
+            break
+        if kind not in ('whole', 'RangeFrom', 'RangeFull'):
+            bad.append((site(b, i), kind))
+    ctx.check(P + ':S13-2:v3-key-id-right-aligned', 'R-table', 'in the v2/v3 arm the octets of the modulus are copied into a suffix of the 8-octet key id (low 64 bits, zero-padded on the left)',
+              n >= 1 and not bad, function=b.path, site=bad[0][0] if bad else None, count=n,
+              missing=None if (n >= 1 and not bad) else ('destination is a %s slice of the id: a modulus shorter than 8 octets is padded on the wrong side' % bad[0][1] if bad else 'copies into the v3 key id not found'))
 
 
 SIGNERS = r'SignatureConfig::sign(_[a-z_]+)?$|SignatureHasher::sign$'
